@@ -250,8 +250,10 @@ func (s *c10Sys) Apply(op engine.Op) (string, *engine.Violation) {
 		addrBucket = "aaa"
 	}
 	realBucket := contains(pre.buckets, addrBucket) || contains(post.buckets, addrBucket)
+	autoCreated := s.w.Cfg.AutoBucket && !contains(pre.buckets, addrBucket) && contains(post.buckets, addrBucket) && nameOracle(addrBucket) == 1
 	// internal / non-bucket names must not answer as buckets
-	if !realBucket && (o.kind != "create-bucket" && o.kind != "copy-from") {
+	legitAuto := s.w.Cfg.AutoBucket && nameOracle(addrBucket) == 1 // created on the fly, legitimately
+	if !realBucket && !legitAuto && (o.kind != "create-bucket" && o.kind != "copy-from") {
 		if r.Status >= 200 && r.Status < 300 {
 			return obs, viol(sig("C10", kind, "non-bucket-answers", "bucket="+bucketClass(o.bucket)), "%s answered %s: a name that is not a bucket answered with success", o.String(), r.Short())
 		}
@@ -267,7 +269,7 @@ func (s *c10Sys) Apply(op engine.Op) (string, *engine.Violation) {
 	}
 	// ListBuckets: only creations/deletions of the addressed name
 	for _, b := range post.buckets {
-		if !contains(pre.buckets, b) && !(o.kind == "create-bucket" && b == o.bucket) {
+		if !contains(pre.buckets, b) && !(o.kind == "create-bucket" && b == o.bucket) && !(autoCreated && b == addrBucket) {
 			return bad("bucket-appeared", "bucket %q appeared in ListBuckets", b)
 		}
 	}
@@ -306,11 +308,14 @@ func (s *c10Sys) Apply(op engine.Op) (string, *engine.Violation) {
 			if _, ok := pre.objs[b][k]; ok {
 				continue
 			}
-			if _, had := pre.objs[b]; !had && o.kind == "create-bucket" {
+			if _, had := pre.objs[b]; !had && (o.kind == "create-bucket" || (autoCreated && b == addrBucket && s.canon(k) == allowed)) {
 				continue
 			}
 			if b == addrBucket && s.canon(k) == allowed && !o.read {
 				continue
+			}
+			if strings.HasPrefix(v, "404") {
+				continue // a probe of a bucket that exists now; nothing is stored there
 			}
 			return bad("foreign-key-appeared", "entry %s/%q appeared: %s", b, k, v)
 		}
@@ -392,13 +397,22 @@ func runC10(c *engine.Ctx) {
 		kinds = drv.AllKinds
 		maxD = 3
 	}
+	var cfgs []drv.Config
 	for _, k := range kinds {
-		cfg := drv.Config{Kind: k}
-		name := "C10/" + string(k)
+		cfgs = append(cfgs, drv.Config{Kind: k})
+	}
+	// auto-bucket creation must not open a way around the name checks
+	cfgs = append(cfgs, drv.Config{Kind: drv.Bolt, AutoBucket: true}, drv.Config{Kind: drv.MultiMem, AutoBucket: true}, drv.Config{Kind: drv.Mem, AutoBucket: true})
+	for _, cfg := range cfgs {
+		cfg := cfg
+		name := "C10/" + worldName(cfg)
 		d := maxD
-		engine.RunSeq(c, engine.SeqSpec{Name: name, World: string(k), MaxDepth: d, NoCheck0: false,
+		if cfg.AutoBucket {
+			d = 1
+		}
+		engine.RunSeq(c, engine.SeqSpec{Name: name, World: worldName(cfg), MaxDepth: d, NoCheck0: false,
 			New: func() (engine.Sys, error) { return newC10Sys(cfg, d) }})
-		c.Bounds[name] = map[string]interface{}{"hostile_keys": len(c10Keys(k)), "bucket_names": c10BucketNames, "depth": d}
+		c.Bounds[name] = map[string]interface{}{"hostile_keys": len(c10Keys(cfg.Kind)), "bucket_names": c10BucketNames, "depth": d}
 	}
 }
 
